@@ -4,6 +4,7 @@ import (
 	"fmt"
 	"go/constant"
 	"go/token"
+	"go/types"
 	"math"
 	"strings"
 
@@ -135,6 +136,8 @@ func c10(p *core.Program, r *core.Report) {
 		}
 		r.Check(bad == "", r3, "bigxy.OrientationIndex/filter-cutoff", p.Pos(fn.Pos()), true, "filter answers <= 1 are returned, anything else goes to the exact path", bad)
 	}
+
+	decidedByFilterOrExactRule(p, r, "decided-by-filter-or-exact", fn, exact)
 
 	const r4 = "delegation"
 	r.Rule(r4, "xy.OrientationIndex is a pure delegation to bigxy.OrientationIndex with its parameters in order", 1)
@@ -435,4 +438,91 @@ func filterEpsilon(fn *ssa.Function) (errbound *ssa.BinOp, g *ssa.Global, c *ssa
 		}
 	}
 	return nil, nil, nil
+}
+
+// decidedByFilterOrExactRule: OrientationIndex has exactly two decision procedures with an exactness argument.
+func decidedByFilterOrExactRule(p *core.Program, r *core.Report, rule string, fn, exact *ssa.Function) {
+	r.Rule(rule, "every value bigxy.OrientationIndex returns is, through phis and extracts, (a) the answer of the stage-A filter (whose structure and constant are checked above), (b) the result of a function of the module that is handed a math/big.Float (the sign of the exact determinant) or of the helper that holds the exact arithmetic, or (c) a constant; and no branch of OrientationIndex itself compares a value computed by float64 arithmetic: there are exactly two decision procedures with an exactness argument, and a third one written in machine arithmetic (an `exact differences` stage, a product comparison) is not covered by either", 1)
+	if fn != nil {
+		isBigArg := func(c *ssa.Call) bool {
+			for _, a := range c.Call.Args {
+				t := a.Type()
+				if pt, ok := t.Underlying().(*types.Pointer); ok {
+					t = pt.Elem()
+				}
+				if namedTypeQual(t) == "math/big.Float" {
+					return true
+				}
+			}
+			return false
+		}
+		bad := ""
+		seen := map[ssa.Value]bool{}
+		var walk func(v ssa.Value, d int)
+		walk = func(v ssa.Value, d int) {
+			if v == nil || seen[v] || d > 10 || bad != "" {
+				return
+			}
+			seen[v] = true
+			switch x := v.(type) {
+			case *ssa.Const:
+			case *ssa.Phi:
+				for _, e := range x.Edges {
+					walk(e, d+1)
+				}
+			case *ssa.Extract:
+				walk(x.Tuple, d+1)
+			case *ssa.Convert:
+				walk(x.X, d+1)
+			case *ssa.ChangeType:
+				walk(x.X, d+1)
+			case *ssa.Call:
+				g := x.Call.StaticCallee()
+				switch {
+				case g != nil && g.Name() == "orientationIndexFilter":
+				case g != nil && g == exact && exact != fn:
+				case g != nil && core.InModule(g) && isBigArg(x):
+				default:
+					name := "a dynamic call"
+					if g != nil {
+						name = short(g)
+					}
+					bad = "the result of " + name + " at " + p.Pos(x.Pos()) + " is returned: a decision procedure that is neither the checked filter nor the exact arithmetic"
+				}
+			default:
+				bad = "a value computed at " + p.Pos(v.Pos()) + " (" + v.String() + ") is returned"
+			}
+		}
+		for _, b := range fn.Blocks {
+			if ret, ok := b.Instrs[len(b.Instrs)-1].(*ssa.Return); ok && len(ret.Results) == 1 {
+				walk(ret.Results[0], 0)
+			}
+			if ifi := eng.BlockIf(b); ifi != nil && bad == "" {
+				if c, _, ok := eng.AsCmp(ifi.Cond); ok {
+					for _, opd := range []ssa.Value{c.X, c.Y} {
+						if tb, isB := opd.Type().Underlying().(*types.Basic); isB && tb.Info()&types.IsFloat != 0 {
+							if bo, isBo := eng.StripConv(opd).(*ssa.BinOp); isBo {
+								bad = "the branch at " + p.Pos(ifi.Pos()) + " compares the rounded float64 result of " + bo.Op.String() + " at " + p.Pos(bo.Pos()) + ": a decision in machine arithmetic outside the checked filter"
+							}
+						}
+					}
+				}
+			}
+		}
+		r.Check(bad == "", rule, short(fn)+"/result-sources", p.Pos(fn.Pos()), true, "the filter's answer or the sign of the exact determinant", bad)
+	}
+}
+
+// orientationPredicateRules (C11, C12, C13 lean on the predicate): the structure of the float filter and the
+// sources of OrientationIndex's results, under the caller's rule names.
+func orientationPredicateRules(p *core.Program, r *core.Report) {
+	const rf = "orientation-filter-structure"
+	r.Rule(rf, "the exact orientation predicate this property's decisions rest on: bigxy.orientationIndexFilter is Shewchuk's stage-A filter as the theorem states it (same obligations as C10 filter-structure: det = detleft - detright of the two float products of coordinate differences, every branch before the error-bound test compares detleft or detright with 0, the bound is dpSafeEpsilon*detsum) - a shortcut added to the filter (equal products taken for collinear) makes near-degenerate points `on the boundary`", 3)
+	if ff := mustFn(p, r, rf, "bigxy", "orientationIndexFilter"); ff != nil {
+		filterStructure(p, r, rf, ff)
+	}
+	fn := mustFn(p, r, rf, "bigxy", "OrientationIndex")
+	if fn != nil {
+		decidedByFilterOrExactRule(p, r, "orientation-decided-by-filter-or-exact", fn, fn)
+	}
 }
